@@ -409,7 +409,11 @@ Proof.
   - intros f Hf.
     assert (Hf' : (exists o0, In o0 (CC.c_ops ES Adoc) /\ field_in unit (ao_body o0) f) \/
                   (exists p, In p (CC.c_frs ES Adoc) /\ field_in unit (snd p) f)).
-    { destruct Hf as [Hf|Hf]; [left; exists o; split; assumption|right; exact Hf]. }
+    { destruct Hf as (m & Hm & Hfm).
+      destruct Hm as [|n name def Hn Hs Hl].
+      - left. exists o. split; assumption.
+      - right. destruct (CostTraceProofs.alookup_last_in unit (CC.c_frs ES Adoc) name def Hl) as [x Hx].
+        exists (x, def). split; [exact Hx|exact Hfm]. }
     split.
     + apply (accepted_document_argument_names_unique pi VS F ES D Hpi Hacc f Hf').
     + intros a l Hal. apply (accepted_values_nodup pi VS Adoc Hleaves Hvals).
